@@ -49,6 +49,7 @@ EXPECT = [
     ("start-time objectives ignore optional", "C14,C07"),
     ("unloads and loads a NonConcurrentBuffer may be left unscheduled", "C05,C06,C09"),
     ("OrderedTaskGroup orders the scheduled members", "C06,C03"),
+    ("CumulativeWorker listed in a SelectWorkers keeps its capacity", "C02,C11"),
 ]
 
 
